@@ -8,6 +8,10 @@ FFT = DFT theorem needs: `exp(-2 pi i t/n)` is `n`-periodic in the integer `t`; 
 namespace Lentil
 open Complex
 
+/-- `np.round(x).astype(int)` (half to even) and `np.min` of two reals, at `R = ℝ` -/
+noncomputable instance instFftLikeReal : FftLike ℝ :=
+  ⟨fun x => if x - ⌊x⌋ < 1 / 2 then ⌊x⌋ else if 1 / 2 < x - ⌊x⌋ then ⌊x⌋ + 1 else if ⌊x⌋ % 2 = 0 then ⌊x⌋ else ⌊x⌋ + 1, min⟩
+
 theorem rootPeriodic_complex : RootPeriodic ℂ ℝ := by
   intro n a b h
   show Complex.exp (((-(2 * Real.pi * ((a : ℤ) : ℝ) / ((n : ℤ) : ℝ)) : ℝ) : ℂ) * I) =
